@@ -1,3 +1,4 @@
+from bounded import jsonlib_conformance
 from bounded import dispatcher
 
 
@@ -6,3 +7,4 @@ def _run(tier, seed):
 
 
 EXTRA_CHECKS = [_run]
+EXTRA_CHECKS = list(EXTRA_CHECKS) + [jsonlib_conformance.run]
